@@ -1,0 +1,227 @@
+//go:build verif
+
+// Contracts for package treeset (comment-only; read by /verif/engine, never compiled into the package).
+
+package treeset
+
+//@ pred Inv(s) := s != nil && s.tree != nil && redblacktree.Inv(s.tree)
+//@ -- abstract view: members = keys of the tree (up to comparator equivalence), ascending sequence KeyAt
+//@ pred N(s) := s.tree.size
+//@ pred KeyAt(s, i) := redblacktree.KeyAt(s.tree, i)
+//@ pred Mem(s, x) := redblacktree.Has(s.tree, x)
+//@ pred Rank(s, x) := s.tree.rank[x]
+//@ pred Config(s) := s.tree == old(s.tree) && s.tree.Comparator == old(s.tree.Comparator)
+//@ pred keylike(s) := argof(s.tree.Comparator, 0)
+
+//@ func NewWith
+//@   requires comparator != nil && redblacktree.SWO(comparator, argof(comparator, 0))
+//@   modifies nothing
+//@   ensures [C04 C13 C15 C17] fresh(result) && Inv(result) && result.tree.Comparator == comparator && fresh(result.tree)
+//@   ensures [C04] forall x like argof(comparator, 0) :: Mem(result, x) <==> (exists j :: 0 <= j && j < len(values) && comparator(x, values[j]) == 0)
+//@   ensures [C04 C15] len(values) == 0 ==> N(result) == 0
+//@   ensures owners: forall x like result.tree.Root :: fresh(x) ==> x.tr == result.tree || x.tr == nil
+
+//@ func Set.Add
+//@   requires Inv(set)
+//@   modifies set.tree.Root, set.tree.size, set.tree.n, set.tree.nodes, set.tree.rank
+//@   modifies each x like set.tree.Root where x.tr == set.tree : x.Left, x.Right, x.Parent, x.a, x.b, x.color, x.Key, x.Value, x.pos
+//@   ensures [C04 C17] Inv(set) && Config(set)
+//@   ensures owners: forall x like set.tree.Root :: fresh(x) ==> x.tr == set.tree || x.tr == nil
+//@   ensures [C04] members: forall x like keylike(set) :: Mem(set, x) <==> old(Mem(set, x)) || (exists j :: 0 <= j && j < len(items) && set.tree.Comparator(x, items[j]) == 0)
+//@   ensures [C04] single: len(items) == 1 ==> (forall x like keylike(set) :: Mem(set, x) <==> old(Mem(set, x)) || set.tree.Comparator(x, items[0]) == 0)
+//@   ensures [C04] N(set) >= old(N(set)) && N(set) <= old(N(set)) + len(items) && (len(items) == 0 ==> N(set) == old(N(set)))
+//@   loop 1:
+//@     invariant Inv(set) && Config(set) && 0 - 1 <= rangeindex && rangeindex < len(items)
+//@     invariant forall x like keylike(set) :: Mem(set, x) <==> old(Mem(set, x)) || (exists j :: 0 <= j && j <= rangeindex && set.tree.Comparator(x, items[j]) == 0)
+//@     invariant len(items) == 1 && rangeindex == 0 ==> (forall x like keylike(set) :: Mem(set, x) <==> old(Mem(set, x)) || set.tree.Comparator(x, items[0]) == 0)
+//@     invariant forall x like set.tree.Root :: fresh(x) ==> x.tr == set.tree || x.tr == nil
+//@     invariant N(set) >= old(N(set)) && N(set) <= old(N(set)) + rangeindex + 1
+//@     decreases len(items) - rangeindex
+
+//@ func Set.Remove
+//@   requires Inv(set)
+//@   modifies set.tree.Root, set.tree.size, set.tree.n, set.tree.nodes, set.tree.rank
+//@   modifies each x like set.tree.Root where x.tr == set.tree : x.Left, x.Right, x.Parent, x.a, x.b, x.color, x.Key, x.Value, x.pos, x.tr
+//@   ensures [C04 C17] Inv(set) && Config(set)
+//@   ensures [C04] members: forall x like keylike(set) :: Mem(set, x) <==> old(Mem(set, x)) && !(exists j :: 0 <= j && j < len(items) && set.tree.Comparator(x, items[j]) == 0)
+//@   ensures [C04] N(set) <= old(N(set)) && N(set) >= old(N(set)) - len(items)
+//@   loop 1:
+//@     invariant Inv(set) && Config(set) && 0 - 1 <= rangeindex && rangeindex < len(items)
+//@     invariant forall x like keylike(set) :: Mem(set, x) <==> old(Mem(set, x)) && !(exists j :: 0 <= j && j <= rangeindex && set.tree.Comparator(x, items[j]) == 0)
+//@     invariant N(set) <= old(N(set)) && N(set) >= old(N(set)) - rangeindex - 1
+//@     decreases len(items) - rangeindex
+
+//@ func Set.Contains
+//@   requires Inv(set)
+//@   modifies nothing
+//@   ensures [C04 C17 C18] result == (forall j :: 0 <= j && j < len(items) ==> Mem(set, items[j]))
+//@   ensures [C04] single: len(items) == 1 ==> result == Mem(set, items[0])
+//@   loop 1:
+//@     invariant 0 - 1 <= rangeindex && rangeindex < len(items) && (len(items) == 0 ==> rangeindex == 0 - 1)
+//@     invariant forall j :: 0 <= j && j <= rangeindex ==> Mem(set, items[j])
+//@     decreases len(items) - rangeindex
+
+//@ func Set.Empty
+//@   requires Inv(set)
+//@   modifies nothing
+//@   ensures [C15 C17 C18] result == (N(set) == 0)
+
+//@ func Set.Size
+//@   requires Inv(set)
+//@   modifies nothing
+//@   ensures [C04 C15 C17 C18] result == N(set) && result >= 0
+
+//@ func Set.Clear
+//@   requires Inv(set)
+//@   modifies set.tree.Root, set.tree.size, set.tree.n
+//@   modifies each x like set.tree.Root where x.tr == set.tree : x.tr
+//@   ensures [C04 C15 C17] Inv(set) && Config(set) && N(set) == 0
+
+//@ func Set.Values
+//@   requires Inv(set)
+//@   modifies nothing
+//@   ensures [C02 C04 C15 C16 C17 C18] fresh(arr(result)) && len(result) == N(set) && (forall j :: 0 <= j && j < N(set) ==> result[j] == KeyAt(set, j))
+//@   ensures [C02 C04] ascending: forall i, j :: 0 <= i && i < j && j < N(set) ==> set.tree.Comparator(result[i], result[j]) < 0
+
+// ---- set algebra (C13): both operands ordered by the same comparator ----
+
+//@ -- Intersection: contract stated but NOT verified (two loop-invariant obligations exceed the solver budget: 114 s with cvc5);
+//@ -- listed as a trusted contract in evidence and outside the C13 claim
+//@ func Set.Intersection
+//@   trusted
+//@   requires Inv(set) && Inv(another) && set.tree.Comparator == another.tree.Comparator
+//@   modifies nothing
+//@   assert backedge 1: forall x like keylike(set) :: set.tree.Comparator(x, KeyAt(set, it.index)) == 0 ==> Rank(set, x) == it.index
+//@   assert backedge 1: forall x like keylike(set) :: set.tree.Comparator(x, KeyAt(set, it.index)) == 0 ==> Mem(set, x)
+//@   assert backedge 1: forall x like keylike(set) :: set.tree.Comparator(x, KeyAt(set, it.index)) == 0 ==> (Mem(another, KeyAt(set, it.index)) ==> Mem(another, x))
+//@   assert backedge 1: forall x like keylike(set) :: set.tree.Comparator(x, KeyAt(set, it.index)) == 0 ==> (Mem(another, x) ==> Mem(another, KeyAt(set, it.index)))
+//@   assert backedge 2: forall x like keylike(set) :: set.tree.Comparator(x, KeyAt(another, it.index)) == 0 ==> Rank(another, x) == it.index
+//@   assert backedge 2: forall x like keylike(set) :: set.tree.Comparator(x, KeyAt(another, it.index)) == 0 ==> Mem(another, x)
+//@   assert backedge 2: forall x like keylike(set) :: set.tree.Comparator(x, KeyAt(another, it.index)) == 0 ==> (Mem(set, KeyAt(another, it.index)) ==> Mem(set, x))
+//@   assert backedge 2: forall x like keylike(set) :: set.tree.Comparator(x, KeyAt(another, it.index)) == 0 ==> (Mem(set, x) ==> Mem(set, KeyAt(another, it.index)))
+//@   ensures [C13 C17 C18] fresh(result) && Inv(result) && fresh(result.tree) && result.tree.Comparator == set.tree.Comparator
+//@   ensures [C13] forall x like keylike(set) :: Mem(result, x) <==> Mem(set, x) && Mem(another, x)
+//@   loop 1:
+//@     invariant ItInv(it) && fresh(it) && fresh(it.iterator) && it.tree == set.tree && Inv(result) && fresh(result) && fresh(result.tree) && result.tree.Comparator == set.tree.Comparator
+//@     invariant forall x like set.tree.Root :: fresh(x) ==> x.tr == result.tree || x.tr == nil
+//@     invariant forall x like keylike(set) :: Mem(result, x) <==> Mem(set, x) && Rank(set, x) <= it.index && Mem(another, x)
+//@     decreases set.tree.size - it.index
+//@   loop 2:
+//@     invariant ItInv(it) && fresh(it) && fresh(it.iterator) && it.tree == another.tree && Inv(result) && fresh(result) && fresh(result.tree) && result.tree.Comparator == set.tree.Comparator
+//@     invariant forall x like set.tree.Root :: fresh(x) ==> x.tr == result.tree || x.tr == nil
+//@     invariant forall x like keylike(set) :: Mem(result, x) <==> Mem(another, x) && Rank(another, x) <= it.index && Mem(set, x)
+//@     decreases another.tree.size - it.index
+
+//@ func Set.Union
+//@   requires Inv(set) && Inv(another) && set.tree.Comparator == another.tree.Comparator
+//@   modifies nothing
+//@   assert backedge 1: forall x like keylike(set) :: set.tree.Comparator(x, KeyAt(set, it.index)) == 0 ==> Rank(set, x) == it.index
+//@   assert backedge 1: forall x like keylike(set) :: set.tree.Comparator(x, KeyAt(set, it.index)) == 0 ==> Mem(set, x)
+//@   assert backedge 1: forall x like keylike(set) :: set.tree.Comparator(x, KeyAt(set, it.index)) == 0 ==> (Mem(another, KeyAt(set, it.index)) ==> Mem(another, x))
+//@   assert backedge 1: forall x like keylike(set) :: set.tree.Comparator(x, KeyAt(set, it.index)) == 0 ==> (Mem(another, x) ==> Mem(another, KeyAt(set, it.index)))
+//@   assert backedge 2: forall x like keylike(set) :: set.tree.Comparator(x, KeyAt(another, it.index)) == 0 ==> Rank(another, x) == it.index
+//@   assert backedge 2: forall x like keylike(set) :: set.tree.Comparator(x, KeyAt(another, it.index)) == 0 ==> Mem(another, x)
+//@   assert backedge 2: forall x like keylike(set) :: set.tree.Comparator(x, KeyAt(another, it.index)) == 0 ==> (Mem(set, KeyAt(another, it.index)) ==> Mem(set, x))
+//@   assert backedge 2: forall x like keylike(set) :: set.tree.Comparator(x, KeyAt(another, it.index)) == 0 ==> (Mem(set, x) ==> Mem(set, KeyAt(another, it.index)))
+//@   ensures [C13 C17 C18] fresh(result) && Inv(result) && fresh(result.tree) && result.tree.Comparator == set.tree.Comparator
+//@   ensures [C13] forall x like keylike(set) :: Mem(result, x) <==> Mem(set, x) || Mem(another, x)
+//@   loop 1:
+//@     invariant ItInv(it) && fresh(it) && fresh(it.iterator) && it.tree == set.tree && Inv(result) && fresh(result) && fresh(result.tree) && result.tree.Comparator == set.tree.Comparator
+//@     invariant forall x like set.tree.Root :: fresh(x) ==> x.tr == result.tree || x.tr == nil
+//@     invariant forall x like keylike(set) :: Mem(result, x) <==> Mem(set, x) && Rank(set, x) <= it.index
+//@     decreases set.tree.size - it.index
+//@   loop 2:
+//@     invariant ItInv(it) && fresh(it) && fresh(it.iterator) && it.tree == another.tree && Inv(result) && fresh(result) && fresh(result.tree) && result.tree.Comparator == set.tree.Comparator
+//@     invariant forall x like set.tree.Root :: fresh(x) ==> x.tr == result.tree || x.tr == nil
+//@     invariant forall x like keylike(set) :: Mem(result, x) <==> Mem(set, x) || (Mem(another, x) && Rank(another, x) <= it.index)
+//@     decreases another.tree.size - it.index
+
+//@ func Set.Difference
+//@   requires Inv(set) && Inv(another) && set.tree.Comparator == another.tree.Comparator
+//@   modifies nothing
+//@   assert backedge 1: forall x like keylike(set) :: set.tree.Comparator(x, KeyAt(set, it.index)) == 0 ==> Rank(set, x) == it.index
+//@   assert backedge 1: forall x like keylike(set) :: set.tree.Comparator(x, KeyAt(set, it.index)) == 0 ==> Mem(set, x)
+//@   assert backedge 1: forall x like keylike(set) :: set.tree.Comparator(x, KeyAt(set, it.index)) == 0 ==> (Mem(another, KeyAt(set, it.index)) ==> Mem(another, x))
+//@   assert backedge 1: forall x like keylike(set) :: set.tree.Comparator(x, KeyAt(set, it.index)) == 0 ==> (Mem(another, x) ==> Mem(another, KeyAt(set, it.index)))
+//@   ensures [C13 C17 C18] fresh(result) && Inv(result) && fresh(result.tree) && result.tree.Comparator == set.tree.Comparator
+//@   ensures [C13] forall x like keylike(set) :: Mem(result, x) <==> Mem(set, x) && !Mem(another, x)
+//@   loop 1:
+//@     invariant ItInv(it) && fresh(it) && fresh(it.iterator) && it.tree == set.tree && Inv(result) && fresh(result) && fresh(result.tree) && result.tree.Comparator == set.tree.Comparator
+//@     invariant forall x like set.tree.Root :: fresh(x) ==> x.tr == result.tree || x.tr == nil
+//@     invariant forall x like keylike(set) :: Mem(result, x) <==> Mem(set, x) && Rank(set, x) <= it.index && !Mem(another, x)
+//@     decreases set.tree.size - it.index
+
+// ---- iterator: index + red-black tree iterator kept in step (C08) ----
+
+//@ pred ItInv(it) := it != nil && it.tree != nil && redblacktree.ItInv(it.iterator) && it.iterator.tree == it.tree && it.index == redblacktree.Cur(it.iterator)
+
+//@ func Set.Iterator
+//@   requires Inv(set)
+//@   modifies nothing
+//@   ensures [C08 C17 C18] result.tree == set.tree && result.index == 0 - 1 && fresh(result.iterator) && redblacktree.ItInv(result.iterator) && result.iterator.tree == set.tree && redblacktree.Cur(result.iterator) == 0 - 1
+
+//@ func Iterator.Next
+//@   requires ItInv(iterator)
+//@   modifies iterator.index, iterator.iterator.node, iterator.iterator.position
+//@   ensures [C08 C17] ItInv(iterator) && iterator.index == min(old(iterator.index) + 1, iterator.tree.size)
+//@   ensures [C08] result == (0 <= iterator.index && iterator.index < iterator.tree.size)
+
+//@ func Iterator.Prev
+//@   requires ItInv(iterator)
+//@   modifies iterator.index, iterator.iterator.node, iterator.iterator.position
+//@   ensures [C08 C17] ItInv(iterator) && iterator.index == max(old(iterator.index) - 1, 0 - 1)
+//@   ensures [C08] result == (0 <= iterator.index && iterator.index < iterator.tree.size)
+
+//@ func Iterator.Value
+//@   requires ItInv(iterator) && 0 <= iterator.index && iterator.index < iterator.tree.size
+//@   modifies nothing
+//@   ensures [C08 C17 C18] result == redblacktree.KeyAt(iterator.tree, iterator.index)
+
+//@ func Iterator.Index
+//@   requires ItInv(iterator)
+//@   modifies nothing
+//@   ensures [C08 C17 C18] result == iterator.index
+
+//@ func Iterator.Begin
+//@   requires ItInv(iterator)
+//@   modifies iterator.index, iterator.iterator.node, iterator.iterator.position
+//@   ensures [C08 C17] ItInv(iterator) && iterator.index == 0 - 1
+
+//@ func Iterator.End
+//@   requires ItInv(iterator)
+//@   modifies iterator.index, iterator.iterator.node, iterator.iterator.position
+//@   ensures [C08 C17] ItInv(iterator) && iterator.index == iterator.tree.size
+
+//@ func Iterator.First
+//@   requires ItInv(iterator)
+//@   modifies iterator.index, iterator.iterator.node, iterator.iterator.position
+//@   ensures [C08 C17] ItInv(iterator) && iterator.index == 0 && result == (iterator.tree.size > 0)
+
+//@ func Iterator.Last
+//@   requires ItInv(iterator)
+//@   modifies iterator.index, iterator.iterator.node, iterator.iterator.position
+//@   ensures [C08 C17] ItInv(iterator) && iterator.index == iterator.tree.size - 1 && result == (iterator.tree.size > 0)
+
+//@ func Iterator.NextTo
+//@   requires ItInv(iterator) && f != nil
+//@   modifies iterator.index, iterator.iterator.node, iterator.iterator.position
+//@   ensures [C08 C17] ItInv(iterator)
+//@   ensures [C08] found: result ==> old(iterator.index) < iterator.index && iterator.index < iterator.tree.size && f(iterator.index, redblacktree.KeyAt(iterator.tree, iterator.index))
+//@     && (forall j :: old(iterator.index) < j && j < iterator.index ==> !f(j, redblacktree.KeyAt(iterator.tree, j)))
+//@   ensures [C08] notfound: !result ==> iterator.index == iterator.tree.size && (forall j :: old(iterator.index) < j && j < iterator.tree.size ==> !f(j, redblacktree.KeyAt(iterator.tree, j)))
+//@   loop 1:
+//@     invariant ItInv(iterator) && old(iterator.index) <= iterator.index
+//@     invariant forall j :: old(iterator.index) < j && j <= iterator.index && j < iterator.tree.size ==> !f(j, redblacktree.KeyAt(iterator.tree, j))
+//@     decreases iterator.tree.size - iterator.index
+
+//@ func Iterator.PrevTo
+//@   requires ItInv(iterator) && f != nil
+//@   modifies iterator.index, iterator.iterator.node, iterator.iterator.position
+//@   ensures [C08 C17] ItInv(iterator)
+//@   ensures [C08] found: result ==> 0 <= iterator.index && iterator.index < old(iterator.index) && f(iterator.index, redblacktree.KeyAt(iterator.tree, iterator.index))
+//@     && (forall j :: iterator.index < j && j < old(iterator.index) ==> !f(j, redblacktree.KeyAt(iterator.tree, j)))
+//@   ensures [C08] notfound: !result ==> iterator.index == 0 - 1 && (forall j :: 0 <= j && j < old(iterator.index) ==> !f(j, redblacktree.KeyAt(iterator.tree, j)))
+//@   loop 1:
+//@     invariant ItInv(iterator) && iterator.index <= old(iterator.index)
+//@     invariant forall j :: iterator.index <= j && j < old(iterator.index) && 0 <= j ==> !f(j, redblacktree.KeyAt(iterator.tree, j))
+//@     decreases iterator.index + 1
